@@ -81,6 +81,7 @@ type State struct {
 	dead   bool // path ended (panic proven unreachable, infeasible, ...)
 	ghostNote []string
 	opqDep string // the path branched on the unconstrained result of this un-contracted call
+	later    bool      // the path continues from an arbitrary later shared state (goroutine verified in context): untouched heaps are unknown, not initial
 	atUnlock *Snapshot // state when the first critical section of the path ended (linearisation point of atomic operations)
 	gwrites  int       // writes to lock-guarded fields so far on this path
 }
@@ -98,6 +99,7 @@ func (s *State) clone() *State {
 		seq:   s.seq,
 		opqDep: s.opqDep,
 		atUnlock: s.atUnlock,
+		later: s.later,
 		gwrites: s.gwrites,
 	}
 	for k, v := range s.heap {
@@ -223,6 +225,7 @@ type Ctx struct {
 	witness   []WitnessTerm
 	paramMode bool
 	entryArgs map[int]Value
+	inContext map[string]bool // contract keys of closures to be inlined and checked in the context of this function
 }
 
 func (c *Ctx) freshConst(hint string, s Sort) Term {
@@ -240,6 +243,9 @@ func (c *Ctx) getHeap(s *State, name string, sort Sort) Term {
 		return t
 	}
 	t := c.heapInit(name, sort)
+	if s.later {
+		t = c.freshConst("HL|"+name, sort)
+	}
 	s.heap[name] = t
 	c.eng.heapSorts[name] = sort
 	return t
